@@ -155,4 +155,15 @@ TEXT = {
         "note": "Trusted: Lean kernel; timerqueue (fires once after the duration); nats Subscription.Drain (the recording connection cannot observe it: subscription release is the Drain call in "
                 "the code). A request racing the expiry may be answered or dropped (the 'while it is active' boundary); Parallel resources have no serialisation by design.",
     },
+    "C16": {
+        "text": "Lean 4 theorems (Props/C16.lean) over the pool model, whose action order is the synchronisation order of the service mutex: in every reachable state every started callback of a "
+                "group except the most recent one has finished, the running one is the most recent, an idle group has all its callbacks finished, a running callback is not finished and "
+                "nothing finishes twice - so the end of each callback of a group happens-before the start of the next one and group-confined user state needs no synchronisation. "
+                "The absence of unsynchronised accesses inside the library is SEARCHED, not proved: a harness binary built with the Go race detector runs concurrent client programs over "
+                "the whole public API (requests, With/WithGroup, Reset/ResetAll/TokenEvent/TokenReset, store mutations on foreign goroutines publishing events, query events, badgerstore "
+                "transactions, index queries and Flush, the memory logger, Shutdown and restart racing all of them; handlers write per-group scratch memory without synchronisation) and the "
+                "pool stress/steered workloads; any report is a violation with the report as replay.",
+        "note": "PARTIAL: a race detector run is not a proof - it reports only races that occur in the executions explored (12 scenarios + ~75 pool workloads per quick run, more in thorough). "
+                "Races inside dependencies and the memory model below mutex/atomic/channel edges are outside. The static access-discipline table planned in DESIGN.md 4/C16(b) is not built.",
+    },
 }
